@@ -149,6 +149,8 @@ def gate(pi: int, ai: int, p1: str, p2: str, second: int) -> bool:
               forwarder_headers=["SCRIPT_NAME", "PATH_INFO"])
     r = mk_req(cfg=cfg)
     r.peer_addr = peer
+    if CASE["pad"] == 0:
+        p1 = p2 = ""                      # keep the whole header block concrete: the allow-list matrix is the subject here
     value = p1 + CASE["core"] + p2
     data = b"X-Forwarded-Proto: " + value.encode("latin-1") + b"\r\nScript_Name: /app"
     if second == 1:
